@@ -17,6 +17,7 @@
 #include "corpus.h"
 #include <dlfcn.h>
 #include <limits.h>
+#include <link.h>
 
 /* ---------------------------------------------------------------- backend handle */
 typedef struct {
@@ -32,6 +33,25 @@ typedef struct {
     int (*get_errcode)(void *);
 } lib_t;
 static lib_t LIB[3]; static int NLIB;
+/* the writable static memory of each backend library (minus RELRO) is snapshotted after loading and restored before every run and
+ * before every fresh-object computation: state hidden in a function-static buffer or a file-scope cache then shows up as a
+ * dependence on the history instead of silently leaking into the "fresh" reference */
+typedef struct { unsigned char *p; size_t n; unsigned char *snap; } seg_t;
+static seg_t SEG[3][8]; static int NSEG[3]; static const char *g_segpath; static int g_segli;
+static int seg_cb(struct dl_phdr_info *info, size_t size, void *data) {
+    (void)size; (void)data;
+    if (!info->dlpi_name || !g_segpath || strcmp(info->dlpi_name, g_segpath)) return 0;
+    uintptr_t rlo = 0, rhi = 0;
+    for (int i = 0; i < info->dlpi_phnum; i++) if (info->dlpi_phdr[i].p_type == PT_GNU_RELRO) { rlo = info->dlpi_addr + info->dlpi_phdr[i].p_vaddr; rhi = rlo + info->dlpi_phdr[i].p_memsz; }
+    for (int i = 0; i < info->dlpi_phnum; i++) {
+        const ElfW(Phdr) *ph = &info->dlpi_phdr[i]; if (ph->p_type != PT_LOAD || !(ph->p_flags & PF_W)) continue;
+        uintptr_t lo = info->dlpi_addr + ph->p_vaddr, hi = lo + ph->p_memsz;
+        if (rhi > lo && rlo <= lo) lo = rhi < hi ? rhi : hi;
+        if (hi > lo && NSEG[g_segli] < 8) { seg_t *g = &SEG[g_segli][NSEG[g_segli]++]; g->p = (unsigned char *)lo; g->n = hi - lo; g->snap = malloc(g->n); memcpy(g->snap, g->p, g->n); }
+    }
+    return 0;
+}
+static void lib_restore_statics(int li) { for (int i = 0; i < NSEG[li]; i++) memcpy(SEG[li][i].p, SEG[li][i].snap, SEG[li][i].n); }
 #define SYM(l, f, n) do { *(void **)&(l)->f = dlsym((l)->h, n); if (!(l)->f) { fprintf(stderr, "dlsym %s: %s\n", n, dlerror()); exit(2); } } while (0)
 static void load_lib(const char *path) {
     lib_t *l = &LIB[NLIB++]; l->h = dlopen(path, RTLD_NOW | RTLD_LOCAL);
@@ -44,6 +64,7 @@ static void load_lib(const char *path) {
     SYM(l, ctx_created, "shim_ctx_created"); SYM(l, ctx_destroyed, "shim_ctx_destroyed"); SYM(l, ctx_errors, "shim_ctx_errors"); SYM(l, ctx_fail_next, "shim_ctx_fail_next");
     SYM(l, get_errcode, "shim_get_errcode");
     const char *(*be)(void) = (const char *(*)(void))dlsym(l->h, "shim_backend"); l->name = be ? be() : "?";
+    { struct link_map *lm = NULL; if (dlinfo(l->h, RTLD_DI_LINKMAP, &lm) == 0 && lm) { g_segpath = lm->l_name; g_segli = NLIB - 1; dl_iterate_phdr(seg_cb, NULL); } }
 }
 
 /* ---------------------------------------------------------------- operation menu */
@@ -52,14 +73,17 @@ typedef struct { unsigned char t, a, b, c; } op_t;       /* type, arg, fault cod
 static const int RFCV[6] = { 0, 1, 2, 3, 4, -1 };
 #define M_DEFAULT (8|16|32|64|128|512)
 static const int MASKV[4] = { M_DEFAULT, M_DEFAULT & ~512, 4 | 1024, 0 };
-static const char *POOL[20] = {
+static size_t POOLLEN[22];   /* 0 = strlen */
+static size_t plen(int a);
+static const char *POOL[22] = {
     "simple@test.com", "\"a\x01" "b\"@ok.com", "\xd0\xb6@ok.com", "a@ab--cd.com", "a@host.zzzzq", "a@example.com", "a@[192.0.2.1]", "",
     "a@\xe2\x99\xa5.de", "a@singlelabel", "a@[IPv6:2001:db8::1]", "aaaaaaaaaaaaaaaaaaaaaaaaaaaaaaaaaaaaaaaaaaaaaaaaaaaaaaaaaaaaaaaaa@ok.com",
     "a@b.abarth", "a@\xd0\xbf\xd0\xbe\xd1\x87\xd1\x82\xd0\xb0.\xd1\x80\xd1\x84", "\"a b\"@ok.com", "a@-bad.com" };
 static int NPOOL = 8, NMASK = 3;
-static int PIDX[20] = { 0, 1, 2, 3, 4, 5, 6, 7, 8, 9, 10, 11, 12, 13, 14, 15, 16, 17, 18, 19 };   /* which pool entries the menu uses */
+static int PIDX[22] = { 0, 1, 2, 3, 4, 5, 6, 7, 8, 9, 10, 11, 12, 13, 14, 15, 16, 17, 18, 19, 20, 21 };   /* which pool entries the menu uses */
 /* pool entries 16..19 are long: two U-label domains of > 255 UTF-8 bytes sharing their first 255 bytes (valid / unlisted TLD),
  * an address of > 320 bytes, a single label of 300 characters */
+static size_t plen(int a) { return POOLLEN[a] ? POOLLEN[a] : strlen(POOL[a]); }
 static char LONGA[4][1200];
 static void build_long_pool(void) {
     char P[900]; int l = 0;
@@ -69,6 +93,10 @@ static void build_long_pool(void) {
     { char *q = LONGA[2]; q += sprintf(q, "someone@"); for (int k = 0; k < 6; k++) { for (int i = 0; i < 55; i++) *q++ = (char)('a' + (i + k) % 26); *q++ = '.'; } strcpy(q, "com"); }
     { char *q = LONGA[3]; q += sprintf(q, "x@"); for (int i = 0; i < 300; i++) *q++ = 'a'; *q = 0; }
     for (int i = 0; i < 4; i++) POOL[16 + i] = LONGA[i];
+    /* two addresses handed over with a length that stops before the buffer's terminator (a line still carrying its line end):
+     * outside the documented length == strlen contract, used only differentially (reused object vs fresh object, ledger) */
+    POOL[20] = "someone@department.example.com\n"; POOLLEN[20] = strlen(POOL[20]) - 1;
+    POOL[21] = "user@bb.zz\r\n"; POOLLEN[21] = strlen(POOL[21]) - 2;
 }
 static const int IDNCODES[] = { -100, -101, -102, -200, -201, -202, -203, -204, -205, -206, -207, -208, -209, -300, -301, -302, -303, -304, -305, -306, -307,
                                 -308, -309, -310, -311, -312, -313, -314, -1, -2, -999 };
@@ -115,18 +143,18 @@ static void violation_h(const char *sub, const char *why, const hist_t *h, const
 }
 
 /* expected outcome of eav_is_email on a FRESH object (differential oracle) */
-static char *FRESH[3][4][2][4][20][2 + 2 * 40];   /* lib, mode, tld, mask, addr, fault slot */
+static char *FRESH[3][4][2][4][22][2 + 2 * 40];   /* lib, mode, tld, mask, addr, fault slot */
 static int fresh_filling;
 static const char *fresh_outcome(int li, int mode, int tld, int mi, int ai, int fslot, op_t fop) {
     char **slot = &FRESH[li][mode][tld][mi][ai][fslot];
     if (*slot) return *slot;
     if (!fresh_filling) { fprintf(stderr, "fresh outcome table incomplete\n"); exit(2); }   /* never disturb the ledgers in the middle of a run */
     lib_t *l = &LIB[li];
-    l->ledger_reset(); l->ctx_reset();
+    l->ledger_reset(); l->ctx_reset(); lib_restore_statics(li);
     void *o = l->new_(0x00); l->init(o); l->set_rfc(o, mode); l->set_tld(o, tld); l->set_mask(o, MASKV[mi]);
     if (l->setup(o) != 0) { fprintf(stderr, "fresh setup failed\n"); exit(2); }
     if (fslot) l->inject(IDNCODES[fop.b], fop.c);
-    int ret = l->is_email(o, POOL[ai], strlen(POOL[ai]));
+    int ret = l->is_email(o, POOL[ai], plen(ai));
     l->disarm();
     char buf[512]; l->outcome(o, ret, buf, sizeof buf);
     l->free_(o); l->delete_(o); l->ledger_reset(); l->ctx_reset();
@@ -136,7 +164,7 @@ static const char *fresh_outcome(int li, int mode, int tld, int mi, int ai, int 
 static int fault_slot(op_t o) { return o.t == OP_EMAILF ? 1 + o.b * 2 + o.c : 0; }
 static void fresh_precompute(void) {
     fresh_filling = 1;
-    for (int li = 0; li < NLIB; li++) for (int mode = 0; mode < 4; mode++) for (int tld = 0; tld < 2; tld++) for (int mi = 0; mi < 4; mi++) for (int ai = 0; ai < 20; ai++) {
+    for (int li = 0; li < NLIB; li++) for (int mode = 0; mode < 4; mode++) for (int tld = 0; tld < 2; tld++) for (int mi = 0; mi < 4; mi++) for (int ai = 0; ai < 22; ai++) {
         op_t o = { OP_EMAIL, (unsigned char)ai, 0, 0 };
         fresh_outcome(li, mode, tld, mi, ai, 0, o);
         if (mode == 3) for (int c = 0; c < NCODES; c++) for (int b = 0; b < 2; b++) { op_t f = { OP_EMAILF, (unsigned char)ai, (unsigned char)c, (unsigned char)b }; fresh_outcome(li, mode, tld, mi, ai, fault_slot(f), f); }
@@ -193,7 +221,7 @@ static void apply(run_t *r, op_t o, const hist_t *h, int check) {
             char before[1024], after[1024], got[512];
             l->canon(obj, before, sizeof before);
             const char *a = POOL[o.a];
-            int ret = l->is_email(r->other[li], a, strlen(a)); MC_ADD(C_LIBCALLS, 1);
+            int ret = l->is_email(r->other[li], a, plen(o.a)); MC_ADD(C_LIBCALLS, 1);
             l->canon(obj, after, sizeof after);
             if (check) {
                 /* 'live=' counts all blocks of the process: mask it (the other object owns one) */
@@ -207,7 +235,7 @@ static void apply(run_t *r, op_t o, const hist_t *h, int check) {
         case OP_EMAIL: case OP_EMAILF: {
             if (o.t == OP_EMAILF) l->inject(IDNCODES[o.b], o.c);
             const char *a = POOL[o.a];
-            int ret = l->is_email(obj, a, strlen(a)); MC_ADD(C_LIBCALLS, 1);
+            int ret = l->is_email(obj, a, plen(o.a)); MC_ADD(C_LIBCALLS, 1);
             int consumed = !l->inject_pending();
             l->disarm();   /* the call may not have converted at all */
             if (check) {
@@ -258,7 +286,7 @@ static void run_begin(run_t *r, int poison) {
     if (NOPOISON) poison = -1;        /* leave the object memory uninitialised (for memcheck) */
     memset(r, 0, sizeof *r); model_init(&r->m); r->m.nfaults = 0;
     for (int li = 0; li < NLIB; li++) {
-        LIB[li].ledger_reset(); LIB[li].ctx_reset(); r->obj[li] = LIB[li].new_(poison); LIB[li].init(r->obj[li]);
+        LIB[li].ledger_reset(); LIB[li].ctx_reset(); lib_restore_statics(li); r->obj[li] = LIB[li].new_(poison); LIB[li].init(r->obj[li]);
         if (TWO_OBJECTS) { r->other[li] = LIB[li].new_(poison); LIB[li].init(r->other[li]); if (LIB[li].setup(r->other[li])) exit(2); }
     }
 }
@@ -281,6 +309,9 @@ static int state_key(run_t *r, char *out, size_t cap) {
     size_t n = 0;
     for (int li = 0; li < NLIB; li++) { n += (size_t)LIB[li].canon(r->obj[li], out + n, cap - n); out[n++] = '|';
         if (TWO_OBJECTS) { n += (size_t)LIB[li].canon(r->other[li], out + n, cap - n); out[n++] = '|'; } }
+    /* digest of the libraries' own static memory: constant on a library without hidden state, so it costs no states there */
+    { uint64_t h = 1469598103934665603ull; for (int li = 0; li < NLIB; li++) for (int g = 0; g < NSEG[li]; g++) for (size_t i = 0; i < SEG[li][g].n; i++) { h ^= SEG[li][g].p[i]; h *= 1099511628211ull; }
+      n += (size_t)snprintf(out + n, cap - n, "S:%016llx|", (unsigned long long)h); }
     n += (size_t)snprintf(out + n, cap - n, "M:c=%d r=%d t=%d m=%d ok=%d f=%d pf=%d", r->m.confirmed, r->m.rfc, r->m.tld, r->m.mask, r->m.setup_ok, r->m.nfaults, r->m.utf8_pending_fail);
     return (int)n;
 }
@@ -300,7 +331,7 @@ static int enabled(const model_t *m, op_t *out) {
         if (FAULTS && m->nfaults < FAULT_BOUND && m->confirmed == 3)
             for (int a = 0; a < NPOOL; a++) {
                 int pa = PIDX[a];
-                if (!(pa == 0 || pa == 3 || pa == 16 || pa == 19)) continue;      /* host-name addresses that reach the conversion (two of them long); literals / bad local parts do not */
+                if (!(pa == 0 || pa == 3 || pa == 16 || pa == 19 || pa == 20)) continue;      /* host-name addresses that reach the conversion (two of them long); literals / bad local parts do not */
                 for (int c = 0; c < NCODES; c++) for (int b = 0; b < 2; b++) out[n++] = (op_t){ OP_EMAILF, (unsigned char)pa, (unsigned char)c, (unsigned char)b };
             }
     }
@@ -402,7 +433,7 @@ static void bfs(long shard, void *arg) {
 
 /* ---------------------------------------------------------------- C19 (a),(b): runs of n validations with faults at every position */
 static int C_FAULTRUNS;
-static const int FAULTADDR[4] = { 0, 3, 16, 19 };
+static const int FAULTADDR[4] = { 0, 3, 16, 20 };
 static void fault_runs(long shard, void *arg) {
     (void)arg; int n = (int)shard + 1;           /* run length */
     hist_t h;
@@ -484,6 +515,30 @@ static void corpus_objects(void) {
         void *o = LIB[li].new_(0xA5); LIB[li].init(o); LIB[li].set_rfc(o, m); LIB[li].set_tld(o, t); if (LIB[li].setup(o)) { fprintf(stderr, "setup\n"); exit(2); } COBJ[li][m][t] = o; }
 }
 static void corpus_shard(long shard, void *arg) { (void)arg; corpus_run(CURPH, shard, corpus_sink, NULL); }
+/* the allow_tld policy switch is a hand-copied block in each backend: all 2^11 masks x one address per class present in the table
+ * (+ reserved, unlisted, single label, literal) x 4 modes through the three builds, outcomes compared */
+static char POLADDR[24][128]; static int NPOL;
+static void policy_build(void) {
+    int seen[16] = { 0 };
+    for (int i = 0; i < RT_PUNY.n; i++) { int c = RT_PUNY.row[i].cls; if (c > 0 && c < 16 && !seen[c]) { seen[c] = 1; snprintf(POLADDR[NPOL++], 128, "user@host.%s", RT_PUNY.row[i].domain); } }
+    static const char *const X[] = { "user@example.com", "user@sub.test", "user@host.zzzzq", "user@singlelabel", "user@[192.0.2.1]", "user@[IPv6:::1]", "user@-bad.com", "user@\xd0\xbf.\xd1\x80\xd1\x84" };
+    for (unsigned i = 0; i < sizeof X / sizeof X[0]; i++) snprintf(POLADDR[NPOL++], 128, "%s", X[i]);
+}
+static void policy_shard(long shard, void *arg) {
+    (void)arg;
+    for (int mask = (int)shard * 32; mask < (int)shard * 32 + 32; mask++) for (int m = 0; m < 4; m++) {
+        for (int li = 0; li < NLIB; li++) LIB[li].set_mask(COBJ[li][m][1], mask);
+        for (int a = 0; a < NPOL; a++) {
+            char out[3][512];
+            for (int li = 0; li < NLIB; li++) { int r = LIB[li].is_email(COBJ[li][m][1], POLADDR[a], strlen(POLADDR[a])); LIB[li].outcome(COBJ[li][m][1], r, out[li], sizeof out[li]); MC_ADD(C_EVAL, 1); }
+            for (int li = 1; li < NLIB; li++) if (strcmp(out[0], out[li])) {
+                char cfg[64]; snprintf(cfg, sizeof cfg, "policy mode=%d mask=%d", m, mask);
+                mc_violation("policy", "backend:policy-outcome-differs", "", cfg, POLADDR[a], strlen(POLADDR[a]), "mask 0x%03x: [%s] %s ; [%s] %s", mask, LIB[0].name, out[0], LIB[li].name, out[li]);
+            }
+            MC_ADD(C_NONTRIV, 1);
+        }
+    }
+}
 
 /* ---------------------------------------------------------------- C13: every ordered pair of a set of addresses on one object
  * (hidden state keyed by something weaker than the address itself: a prefix, a hash, a length) */
@@ -555,17 +610,18 @@ int main(int argc, char **argv) {
     C_EMAILT = mc_counter("email_transitions_compared_with_fresh_object"); C_LIBCALLS = mc_counter("library_calls");
     C_FAULTRUNS = mc_counter("fault_runs"); mc_counter("bfs_depth_at_fixpoint"); mc_counter("distinct_email_outcomes"); mc_counter("frontier_left");
     build_long_pool();
-    { static const int Q[11] = { 0, 1, 2, 3, 4, 5, 6, 7, 16, 17, 18 }; if (!mc_thorough) { for (int i = 0; i < 11; i++) PIDX[i] = Q[i]; NPOOL = 11; } }
-    if (mc_thorough) { NPOOL = 20; NMASK = 4; NPOISON = 4; }
+    { static const int Q[13] = { 0, 1, 2, 3, 4, 5, 6, 7, 16, 17, 18, 20, 21 }; if (!mc_thorough) { for (int i = 0; i < 13; i++) PIDX[i] = Q[i]; NPOOL = 13; } }
+    if (mc_thorough) { NPOOL = 22; NMASK = 4; NPOISON = 4; }
     if (NOPOISON) { NPOISON = 1; }
-    if (!strcmp(PROP, "C19")) { static const int F[8] = { 0, 3, 16, 19, 1, 5, 6, 17 }; for (int i = 0; i < 8; i++) PIDX[i] = F[i]; FAULTS = 1; NPOOL = mc_thorough ? 8 : 5; NMASK = 2; NPOISON = 1; }
-    if (!strcmp(PROP, "C18")) { NPOOL = mc_thorough ? 20 : 11; NMASK = mc_thorough ? 4 : 3; NPOISON = 1; }
+    if (!strcmp(PROP, "C19")) { static const int F[9] = { 0, 3, 16, 19, 20, 1, 5, 6, 17 }; for (int i = 0; i < 9; i++) PIDX[i] = F[i]; FAULTS = 1; NPOOL = mc_thorough ? 9 : 6; NMASK = 2; NPOISON = 1; }
+    if (!strcmp(PROP, "C18")) { NPOOL = mc_thorough ? 22 : 13; NMASK = mc_thorough ? 4 : 3; NPOISON = 1; }
     fresh_precompute();
     if (mc_replay) return do_replay();
     C_CORPUS = mc_counter("corpus_addresses_through_all_backends");
     if (!strcmp(PROP, "C18corpus")) {
         mc_driver = "C18"; CORPUS_DEEP = mc_thorough; if (corpus_load()) return 2; corpus_objects();
         static const int PH[] = { CP_TLD, CP_IDN, CP_LONGIDN, CP_ALTDOT, CP_LABELLEN, CP_MAXLIT, CP_EMAIL, CP_DOMAIN, CP_LITERAL, CP_LOCAL, CP_BYTES, CP_CROSS, CP_LONG, CP_SCALARS };
+        policy_build(); mc_parallel("3 backends: all 2^11 allow_tld masks x one address per class x 4 modes", 64, policy_shard, NULL);
         for (unsigned i = 0; i < sizeof PH / sizeof PH[0]; i++) { CURPH = PH[i]; char nm[64]; snprintf(nm, sizeof nm, "3 backends: %.40s", corpus_name(CURPH)); mc_parallel(nm, corpus_shards(CURPH), corpus_shard, NULL); }
         return mc_finish();
     }
